@@ -2,9 +2,10 @@
 # tools/resnapshot.sh: regenerate the whole-function snapshot bridges (Bridge/Src*.lean) from /repo's CURRENT source.
 # Run by hand, only after the change to /repo has been reviewed (a fix: commit) and the model follows it; commit the result.
 cd "$(dirname "$0")/.." || exit 2
+python3 tools/enumerate_src.py
 /venv/bin/python -c "from harness import extract; e = extract.write_extracted(); print('extract errors:', e)"
 doc="whole-function snapshot of the source the model was read off; any edit of these functions breaks the obligation and sends the check searching for a failing input"
-for g in Text:text Verify:verify Loader:loader Walk:walk Update:update FindTop:findtop Hash:hash Pgp:pgp Cli:cli; do
+for g in Text:text Verify:verify Loader:loader Walk:walk Update:update Codec:codec Profile:profile FindTop:findtop Hash:hash Pgp:pgp Cli:cli; do
   n=${g%%:*}; p=${g##*:}
   python3 tools/snapshot_bridge.py Src$n "$doc ($p)" src_${p}_
 done
